@@ -4,6 +4,7 @@ package server
 
 import (
 	"github.com/XiaoMi/Gaea/models"
+	"github.com/XiaoMi/Gaea/mysql"
 	"github.com/XiaoMi/Gaea/util"
 	vs "github.com/XiaoMi/Gaea/zz_verifsym"
 )
@@ -42,7 +43,7 @@ func vhC21ToLower(s string) string {
 }
 
 //verif:stub strings.ToLower vhC21ToLower
-//verif:harness prop=C21 bounds="text = lead + keyword + separator + rest; keyword from 10 write and 6 read keywords with the case of every letter symbolic; separator: any ASCII whitespace byte (symbolic); lead from {empty, symbolic whitespace byte, '/*c*/', '/*c*/'+whitespace, '-- c\\n', '#c\\n', '('}; read-only user with and without read/write splitting"
+//verif:harness prop=C21 bounds="statement arriving as text or as a piece of an executed prepared statement; text = lead + keyword + separator + rest; keyword from 10 write and 6 read keywords with the case of every letter symbolic; separator: any ASCII whitespace byte (symbolic); lead from {empty, symbolic whitespace byte, '/*c*/', '/*c*/'+whitespace, '-- c\\n', '#c\\n', '('}; read-only user with and without read/write splitting"
 func Harness_C21_DirectQuery() {
 	w := vhC21Words[vs.Choice("keyword", len(vhC21Words))]
 	var text []byte
@@ -69,7 +70,12 @@ func Harness_C21_DirectQuery() {
 	text = append(text, vhC21Space("sep"))
 	text = append(text, "t1 x"...)
 	se := vhC21Executor(vs.Choice("rwSplit", 2))
-	err := se.checkSQLAllowed(util.NewRequestContext(), string(text))
+	// the statement arrives as text (COM_QUERY) or as a piece of a prepared statement being executed
+	rc := util.NewRequestContext()
+	if vs.Choice("viaPreparedStatement", 2) == 1 {
+		rc.SetCmdStmtType(mysql.ComStmtExecute)
+	}
+	err := se.checkSQLAllowed(rc, string(text))
 	vs.TagI("keyword", int64(vs.Concrete(0)))
 	if w.write {
 		vs.Assert(err != nil, "C21/write-statement-rejected-for-read-only-user:"+w.word)
